@@ -163,7 +163,7 @@ func (f *Frame) val(v ssa.Value) Val {
 		cv.NF = true
 		return cv
 	case *ssa.Global:
-		return Val{Typ: x.Type(), P: &Place{kind: pGlobal, global: x, root: x.Type().(*types.Pointer).Elem()}, T: "0", NF: true}
+		return Val{Typ: x.Type(), P: &Place{kind: pGlobal, global: x, root: x.Type().(*types.Pointer).Elem()}, T: f.ex.globalAddr(x), NF: true}
 	case *ssa.Function:
 		return Val{Typ: x.Type(), Fn: x, T: f.ex.funcConst(x), NF: true}
 	case *ssa.Builtin:
@@ -443,8 +443,41 @@ func (ex *Exec) globalTerm(g *ssa.Global) string {
 	return n
 }
 
+// globalAddr: the address of a package-level variable, for the places where it is used as a
+// pointer value (e.g. "return &DynamicVal"): a positive constant whose frozen-heap content is the variable.
+func (ex *Exec) globalAddr(g *ssa.Global) string {
+	key := qualifier(g.Pkg.Pkg) + "." + g.Name()
+	n := "GA." + sanitize(key)
+	if !ex.heapDecl[n] {
+		ex.heapDecl[n] = true
+		elem := g.Type().(*types.Pointer).Elem()
+		heap := ""
+		if at, ok := elem.Underlying().(*types.Array); ok {
+			heap = ex.S.heapForSliceElem(at.Elem())
+		} else {
+			heap = ex.S.heapForPointee(elem)
+		}
+		ex.emit("(declare-const " + n + " Int)")
+		ex.emit("(assert (> " + n + " 0))")
+		if _, isArr := elem.Underlying().(*types.Array); !isArr {
+			ex.emit("(assert (= (select " + ex.frozen(heap) + " " + n + ") " + ex.globalTerm(g) + "))")
+		}
+	}
+	return n
+}
+
 // specialAtom resolves $F<heap> atoms (and $H<heap> when a state is given).
 func (ex *Exec) specialAtom(a string, st *State) (string, bool) {
+	if strings.HasPrefix(a, "$at<") && st != nil {
+		if i := strings.Index(a, ">:"); i > 0 {
+			name := a[4:i]
+			if _, ok := ex.S.heaps[name]; !ok {
+				ex.fail("unknown heap %s in contract term", name)
+				return a, true
+			}
+			return ex.readObj(st, name, a[i+2:]), true
+		}
+	}
 	if strings.HasPrefix(a, "$F<") && strings.HasSuffix(a, ">") {
 		name := a[3 : len(a)-1]
 		if _, ok := ex.S.heaps[name]; !ok {
